@@ -1887,6 +1887,15 @@ def _outer(I, a, k, e, env, ctx):
     return NotImplemented
 
 
+@ext("numpy.roll")
+def _roll(I, a, k, e, env, ctx):
+    if a and isinstance(a[0], Rat):
+        sh = a[1] if len(a) > 1 else k.get("shift")
+        ax = a[2] if len(a) > 2 else k.get("axis")
+        return Rat.atom(Fn("roll", (a[0], sh, ax)))
+    return NotImplemented
+
+
 @ext("numpy.count_nonzero")
 def _count_nonzero(I, a, k, e, env, ctx):
     if a and isinstance(a[0], Rat):
@@ -1981,7 +1990,7 @@ def _append(I, a, k, e, env, ctx):
     return Rat.atom(Fn("concat", (tuple(parts), _axis(ax))))
 
 
-@ext("numpy.fliplr", "numpy.flipud", "numpy.flip", "numpy.rot90", "numpy.roll", "numpy.sort",
+@ext("numpy.fliplr", "numpy.flipud", "numpy.flip", "numpy.rot90", "numpy.sort",
      "numpy.cumsum", "numpy.diag", "numpy.tile", "numpy.insert", "numpy.delete", "numpy.digitize",
      "numpy.bitwise_or", "numpy.interp", "numpy.fill_diagonal", "numpy.outer", "numpy.trace")
 def _named(I, a, k, e, env, ctx):
